@@ -436,6 +436,26 @@ class ScriptedEnv:
         return getattr(self._e, name)
 
 
+class Runaway(Exception):
+    """the real loop asked for more transitions than any roll-out within the cap can take"""
+
+
+class Guard:
+    """the environment with a budget of transition samples (a roll-out that ignores its cap must not hang the check)"""
+
+    def __init__(self, env, budget):
+        self._e, self._left = env, budget
+
+    def next_state_dist(self, s, a):
+        self._left -= 1
+        if self._left < 0:
+            raise Runaway()
+        return self._e.next_state_dist(s, a)
+
+    def __getattr__(self, name):
+        return getattr(self._e, name)
+
+
 class ScriptedMDPPolicy(Policy):
     def __init__(self, prob, script):
         self._p, self._s = prob, script
@@ -541,7 +561,9 @@ def run_roll(prob, job, script=None):
     try:
         with warnings.catch_warnings():
             warnings.simplefilter("ignore")
-            res = pol.run_on(env, **kw)
+            res = pol.run_on(Guard(env, cap + 3), **kw)
+    except Runaway:
+        return dict(runaway=f"more than {cap + 3} transitions sampled for max_steps={cap}", traces=[], script=sc)
     except Exception as e:                                      # noqa: BLE001 - reported as a failing roll-out
         return dict(error=f"{type(e).__name__}: {e}"[:300], traces=[], script=sc)
     traces = []
@@ -621,7 +643,10 @@ def run_eval(prob, job, tamper=None):
     try:
         with warnings.catch_warnings():
             warnings.simplefilter("ignore")
-            ev = Rec().evaluate_on(prob.env, n_simulations=n, max_steps=cap, rng=rng)
+            ev = Rec().evaluate_on(Guard(prob.env, (n + 2) * (cap + 3)), n_simulations=n, max_steps=cap, rng=rng)
+    except Runaway:
+        return dict(runaway=f"more than {(n + 2) * (cap + 3)} transitions sampled for n_simulations={n}, "
+                            f"max_steps={cap}", traces=[])
     except Exception as e:                                      # noqa: BLE001
         return dict(error=f"{type(e).__name__}: {e}"[:300], traces=[])
     rolls, traces = [], []
@@ -876,12 +901,16 @@ class Pipeline:
         # jobs whose real code raised
         for ji, job in enumerate(self.jobs):
             out = self.outs.get(ji, {})
-            if out.get("error"):
+            if out.get("error") or out.get("runaway"):
                 m = self.insts[job["iid"] - 1] if "iid" in job else {"kind": "mdp", "pk": "ret"}
                 site = site_of(m, job["kind"] if job["kind"] in ("eval", "ret") else "roll")
                 shape = "reward-sequence" if job["kind"] == "ret" else shape_of(m, job)
-                ctx.violation(f"C14:{site}:raises:{shape}", f"{site} raised on a valid input: {out['error']}",
-                              self.case_of(ji))
+                if out.get("runaway"):
+                    ctx.violation(f"C14:{site}:roll-out-does-not-stop-at-the-cap:{shape}",
+                                  f"{site}: {out['runaway']}", self.case_of(ji))
+                else:
+                    ctx.violation(f"C14:{site}:raises:{shape}", f"{site} raised on a valid input: {out['error']}",
+                                  self.case_of(ji))
 
     def judge_roll(self, ji, role, tr, v):
         ctx = self.ctx
